@@ -198,7 +198,7 @@ def extra_checks(prop, tier, results):
         for r in rs:
             hid = '%s::%s::%s' % ('enum' if r['kind'] == 'enum' else 'kani', unit, r['harness'].split('::')[-1])
             e['harnesses'].append({'id': hid, 'harness': r['harness'], 'kind': r['kind'], 'bound': r.get('bound') or None, 'claim': r.get('label'),
-                                   'status': r['status'], 'cbmc_time_s': r.get('time'), 'executions': r.get('executions'), 'cached': r.get('cached'), 'cmd': r.get('cmd')})
+                                   'covers': r.get('covers'), 'status': r['status'], 'cbmc_time_s': r.get('time'), 'executions': r.get('executions'), 'cached': r.get('cached'), 'cmd': r.get('cmd')})
             if r['kind'] == 'enum' and r['status'] == 'pass' and not r.get('executions'):
                 und.append('%s: no execution recorded' % hid)
             if r['kind'] == 'complete':
